@@ -185,6 +185,7 @@ type c20Op struct {
 	K   string `json:"k"`
 	X   string `json:"x"`
 	Syn bool   `json:"syn,omitempty"` // not announced by a hook: inferred from measuring the mutex
+	Ev  string `json:"ev,omitempty"`  // the hook event that announced it (a replay parks there, whatever kind of lock was measured)
 }
 
 func measureMu(mu *sync.RWMutex) string {
@@ -289,21 +290,21 @@ func c20MineOne(sc c20Scenario) c20Mined {
 			mus[res] = mu
 			switch measureMu(mu) {
 			case "read":
-				ops = append(ops, c20Op{K: "RLock", X: res})
+				ops = append(ops, c20Op{K: "RLock", X: res, Ev: ev + ":" + res})
 				if ev == "lock-acq" {
 					notes = append(notes, "announced write lock on "+res+" measured as read lock")
 				}
 			case "write":
-				ops = append(ops, c20Op{K: "Lock", X: res})
+				ops = append(ops, c20Op{K: "Lock", X: res, Ev: ev + ":" + res})
 			default:
 				notes = append(notes, "announced "+ev+" on "+res+" but the mutex is not held")
 			}
 		case "runlock", "unlock":
 			switch measureMu(mu) {
 			case "read":
-				ops = append(ops, c20Op{K: "RUnlock", X: res})
+				ops = append(ops, c20Op{K: "RUnlock", X: res, Ev: ev + ":" + res})
 			case "write":
-				ops = append(ops, c20Op{K: "Unlock", X: res})
+				ops = append(ops, c20Op{K: "Unlock", X: res, Ev: ev + ":" + res})
 			default:
 				notes = append(notes, "announced "+ev+" on "+res+" but the mutex is not held")
 			}
@@ -515,6 +516,9 @@ type c20Cex struct {
 }
 
 func c20Target(o c20Op) string {
+	if o.Ev != "" {
+		return o.Ev
+	}
 	switch o.K {
 	case "RLock":
 		return "rlock-acq:" + o.X
